@@ -179,3 +179,150 @@ func VerifC09_RelExchange()       { vStepObserved(true, 3) }
 func VerifC09_RelSetRelations()   { vStepObserved(true, 4) }
 func VerifC09_RelRemoveEntity()   { vStepObserved(true, 5) }
 func VerifC09_RelCopy()           { vStepObserved(true, 6) }
+
+// ---- batch phases: all removal callbacks observe "no entity of the batch changed yet",
+// all other callbacks observe "all of them changed"; every reported entity is selected;
+// each selected entity is reported exactly once per documented event; the world is locked.
+
+type vBatchObs struct {
+	W        *vWorld
+	sel      [vNE]bool
+	pre      [vNE]vEnt
+	post     [vNE]vEnt
+	count    [7][vNE]int
+	failures int
+}
+
+func (b *vBatchObs) onEvent(evt EventType, e Entity) {
+	W := b.W
+	j := W.indexOf(e)
+	if j < 0 || !b.sel[j] {
+		vcheck("batch-cb/reported-entity-is-affected", false)
+		return
+	}
+	b.count[evt-OnCreateEntity][j]++
+	removal := evt == OnRemoveEntity || evt == OnRemoveComponents || evt == OnRemoveRelations
+	vcheck("batch-cb/world-locked", W.w.IsLocked())
+	vcheck("batch-cb/entity-alive", W.w.Alive(e))
+	// phase: every selected entity shows the old (removal) or new (other) composition and target
+	okPhase := true
+	for k := 0; k < W.n; k++ {
+		if !b.sel[k] || !W.w.Alive(W.e[k].h) {
+			continue
+		}
+		exp := &b.post[k]
+		if removal {
+			exp = &b.pre[k]
+		}
+		for c := 0; c < vNC; c++ {
+			okPhase = okPhase && W.u.Has(W.e[k].h, W.id[c]) == exp.has[c]
+		}
+		if exp.has[cR1] && W.u.Has(W.e[k].h, W.id[cR1]) {
+			okPhase = okPhase && W.u.GetRelation(W.e[k].h, W.id[cR1]) == exp.tgt[0]
+		}
+	}
+	if removal {
+		vcheck("batch-cb/removal-events-before-any-change", okPhase)
+	} else {
+		vcheck("batch-cb/other-events-after-all-changes", okPhase)
+	}
+	vcheck("batch-cb/exactly-once-in-a-query", W.rowsHolding(e) == 1)
+}
+
+func (b *vBatchObs) observe(evts ...EventType) {
+	for _, evt := range evts {
+		evt := evt
+		Observe(evt).Do(func(e Entity) { b.onEvent(evt, e) }).Register(b.W.w)
+	}
+}
+
+func (b *vBatchObs) expect(tag string, evt EventType, want func(j int) bool) {
+	for j := 0; j < b.W.n; j++ {
+		exp := 0
+		if b.sel[j] && want(j) {
+			exp = 1
+		}
+		vcheck(tag+"/event-once-per-affected-entity", b.count[evt-OnCreateEntity][j] == exp)
+	}
+}
+
+// AddBatch of the relation component R1 (with target) to entities holding A: OnAddComponents and OnAddRelations
+func VerifC09_BatchAddRelation() {
+	W := vShapeFor(1)
+	q := W.arbQuerySpec(false)
+	vassume(q.f.mask.Get(W.id[cA].id) && q.f.hasWithout && q.f.without.Get(W.id[cR1].id))
+	t := W.pickTarget("target")
+	if !W.targetOK(t) {
+		return
+	}
+	b := &vBatchObs{W: W, sel: W.selection(q)}
+	for j := 0; j < W.n; j++ {
+		b.pre[j], b.post[j] = W.e[j], W.e[j]
+		b.post[j].has[cR1] = true
+		b.post[j].tgt[0] = t
+	}
+	b.observe(OnAddComponents, OnAddRelations, OnRemoveComponents, OnRemoveRelations)
+	mp := NewMap1[vChild](W.w)
+	vcheck("no-panic", !vpanics(func() { mp.AddBatchFn(W.batch(q), nil, RelIdx(0, t)) }))
+	b.expect("add", OnAddComponents, func(int) bool { return true })
+	b.expect("addrel", OnAddRelations, func(int) bool { return true })
+	b.expect("rem", OnRemoveComponents, func(int) bool { return false })
+	vreach("end")
+}
+
+// RemoveBatch of R1 from several tables: OnRemoveComponents and OnRemoveRelations before anything moved
+func VerifC09_BatchRemoveRelation() {
+	W := vShapeFor(1)
+	q := W.arbQuerySpec(false)
+	vassume(q.f.mask.Get(W.id[cR1].id))
+	b := &vBatchObs{W: W, sel: W.selection(q)}
+	for j := 0; j < W.n; j++ {
+		b.pre[j], b.post[j] = W.e[j], W.e[j]
+		b.post[j].has[cR1] = false
+	}
+	b.observe(OnAddComponents, OnAddRelations, OnRemoveComponents, OnRemoveRelations)
+	mp := NewMap1[vChild](W.w)
+	vcheck("no-panic", !vpanics(func() { mp.RemoveBatch(W.batch(q), nil) }))
+	b.expect("rem", OnRemoveComponents, func(int) bool { return true })
+	b.expect("remrel", OnRemoveRelations, func(int) bool { return true })
+	b.expect("add", OnAddComponents, func(int) bool { return false })
+	vreach("end")
+}
+
+// RemoveEntities: OnRemoveEntity / OnRemoveRelations for all, before any is removed
+func VerifC09_BatchRemoveEntities() {
+	W := vShapeFor(1)
+	q := W.arbQuerySpec(false)
+	b := &vBatchObs{W: W, sel: W.selection(q)}
+	for j := 0; j < W.n; j++ {
+		b.pre[j], b.post[j] = W.e[j], W.e[j]
+	}
+	b.observe(OnRemoveEntity, OnRemoveRelations)
+	vcheck("no-panic", !vpanics(func() { W.w.RemoveEntities(W.batch(q), nil) }))
+	b.expect("rement", OnRemoveEntity, func(int) bool { return true })
+	b.expect("remrel", OnRemoveRelations, func(j int) bool { return W.e[j].has[cR1] || W.e[j].has[cR2] })
+	vreach("end")
+}
+
+// SetRelationsBatch: OnRemoveRelations before any, OnAddRelations after all (documented batch timing)
+func VerifC09_BatchSetRelations() {
+	W := vShapeFor(1)
+	q := W.arbQuerySpec(false)
+	vassume(q.f.mask.Get(W.id[cR1].id))
+	t := W.pickTarget("target")
+	if !W.targetOK(t) {
+		return
+	}
+	b := &vBatchObs{W: W, sel: W.selection(q)}
+	for j := 0; j < W.n; j++ {
+		b.pre[j], b.post[j] = W.e[j], W.e[j]
+		b.post[j].tgt[0] = t
+	}
+	b.observe(OnAddRelations, OnRemoveRelations)
+	mp := NewMap1[vChild](W.w)
+	vcheck("no-panic", !vpanics(func() { mp.SetRelationsBatch(W.batch(q), nil, RelIdx(0, t)) }))
+	changed := func(j int) bool { return W.e[j].tgt[0] != t }
+	b.expect("remrel", OnRemoveRelations, changed)
+	b.expect("addrel", OnAddRelations, changed)
+	vreach("end")
+}
